@@ -71,6 +71,14 @@ def _is_opt(v):
 
 def call_closure(prog, clo, args, call, depth, inline=False):
     """apply a closure value ('closure', path, upvars) to argument values"""
+    if isinstance(clo, tuple) and clo and clo[0] == "fnitem" and prog is not None and clo[1] in prog._bodies_raw:
+        fb = prog.body(clo[1])
+        return run(fb, 0, {i + 1: a for i, a in enumerate(args)}, call=call, prog=prog, depth=depth + 1, inline=inline)
+    if isinstance(clo, tuple) and clo and clo[0] == "fnitem" and call is not None:
+        # a foreign function item (e.g. `Into::into`, a tuple-struct constructor): let the handler decide
+        v = call(clo[1], list(args), {"callee": clo[1], "args": [], "gargs": []})
+        if v is not None:
+            return v
     if not (isinstance(clo, tuple) and clo and clo[0] == "closure"):
         raise Unrecognised("call of a non-closure value %r" % (clo,))
     cb = prog.body(clo[1])
